@@ -22,6 +22,10 @@ for s in $LIST; do
   [ "$s" = "C15-J" ] && checks="C15 C16"   # a Direct left waiting by Close: announce/receiver.go, C16's statement
   [ "$s" = "C14-J" ] && checks="C14 C08"   # idle cleaner vs a sync waiting for its head: C08's long-sync unit
   [ "$s" = "C15-L" ] && checks="C15 C14"   # notification of an explicit sync that finishes during Close: C14's close-during-sync unit
+  [ "$s" = "C01-O" ] && checks="C01 C04"   # a hook failure that is dropped: "failure signalled by the hook" is C04's clause
+  [ "$s" = "C01-P" ] && checks="C01 C08"   # stale stop point of a queued explicit sync: C08's exactly-once oracle
+  [ "$s" = "C04-P" ] && checks="C04 C09"   # receiver duplicate filter vs un-cache for CIDv0: C09's model
+  [ "$s" = "C15-P" ] && checks="C15 C14"   # bounded listener queue: C14's backlog unit
   cd /repo; if [ -n "$(git status --porcelain)" ]; then echo "/repo dirty"; exit 2; fi
   if ! git apply /verif/seeded/$s/patch.diff 2>/dev/null; then
     if ! patch -p1 --no-backup-if-mismatch -s < /verif/seeded/$s/patch.diff >/dev/null 2>&1; then git checkout -- .; git clean -fdq; echo "$s: patch does not apply to the current tree"; echo "{\"applies\": false}" > /verif/seeded/$s/detection.json; continue; fi
